@@ -48,6 +48,7 @@ _mutable_spec: tuple[tuple[type[t.Any], frozenset[str]], ...] = (
                 "clear",
                 "difference_update",
                 "discard",
+                "intersection_update",
                 "pop",
                 "remove",
                 "symmetric_difference_update",
